@@ -133,3 +133,46 @@ CHECKS.update({
     note=PROXY_NOTE, design="DESIGN.md section 7 C20"),
 })
 NOT_YET = {}
+
+# what is proved in Coq for each property (Properties/Cxx.v; every theorem closed under the global context)
+PROVED = {
+ "C01": "for static trees of any size and depth (elements with static ids/classes/attributes, text, comments, doctype) the literal the emitter "
+        "writes reads back, by the model of strconv.Unquote, as exactly the denoted HTML, and a template with a static body is exactly prologue + one "
+        "WriteString + error check + epilogue; dynamic content is NOT covered by a theorem (denotation runs only): partial.",
+ "C02": "besides the escaping function: the exact code emitted for `= expr`/`#{}` (wrapped in goht.EscapeString once in an escaping context, not at all "
+        "in an unescaped one) and for dynamic attribute values (always escaped), from any writer state.",
+ "C03": "temporaries are never reused inside a template (itoa injective, counter never decreases over any template-body tree), the import list has no "
+        "duplicates, a string position is the argument of EscapeString/CaptureErrors; Go type checking itself is run, not modelled: partial.",
+ "C04": "strconv.Unquote inverts strconv.Quote on EVERY byte string (UTF-8 codec inverse lemmas, hex escapes), chunks of a literal compose, a raw quote or "
+        "newline is refused, and every static chunk of the emitter (tag, id, class, attribute value, comment, text) reads as the intended HTML; attribute "
+        "names only for plain characters (F06).",
+ "C05": "the children-slot protocol of the runtime equals lexical scoping for every program of the skeleton language (Runtime/Children.v).",
+ "C06": "NO DEADLOCK for every input: every lexer state call emits at most 4 tokens on every cursor (channel holds 64), lifted through every parser "
+        "function to compile_parse; no-panic and no-hang rest on the correspondence run only: partial.",
+ "C07": "the writer's line/column counter is the end position of the generated text; every source-map entry points at the place its fragment was written; "
+        "character k of a fragment sits where walking k characters from the target leads; end to end for one-line fragments the template position maps to "
+        "the generated position holding the same character (byte columns; UTF-16 after non-ASCII is F15).",
+ "C08": "the proxy model keeps gopls on the compilation of the current buffer after every history of events (invariant by induction over histories).",
+ "C09": "position/range/URI translation lemmas of the proxy model for every request kind.",
+ "C10": "the CLI emits nothing unless parsing succeeded without error; the indentation rule as an iff; nested content under void/self-closed/inline-content "
+        "elements and one-line comments and unknown filters are refused in every parser state; that every error is located inside the file is by fault "
+        "injection only: partial.",
+ "C11": "for EVERY input the generator accepts: the root holds Go-code runs and templates only, the import list has no duplicates and none of goht's own, "
+        "and the output is header ++ each item's own code; Go-code tokens are written verbatim; a template starts with `func ` + exactly its declaration "
+        "(parser-wide stack invariant + emitter simulation).",
+ "C12": "Render protocol model (Runtime/Render.v): a failure inside hands nothing to the destination and names a site that did fail; success is exactly one "
+        "Write of the complete document; a failing destination is never swallowed; all-or-nothing; for every program, failing-site set and destination "
+        "behaviour; the model is run against the real compiler+runtime on generated programs.",
+ "C13": "pool invariant and isolation of renders under arbitrary interleavings of the pool steps (Runtime/Pool.v).",
+ "C14": "what the whitespace pass removes and what it leaves alone: inert text is untouched, markers and their adjacent whitespace go, no marker survives.",
+ "C15": "the emitter writes the same text with and without a source map, at any position, after any earlier output (simulation over all trees); CLI and LSP "
+        "code are the same text for every input; every accepted file is header ++ items' own code, so a template's code does not depend on its siblings. "
+        "Determinism itself is by construction of the model (a function of the bytes) and checked on the implementation by the run.",
+ "C16": "look-ups in both directions are mutually inverse under a decidable uniqueness test evaluated per file; one Add is a per-line shift.",
+ "C17": "diagnostics cache lemmas of the proxy model (compiler error never masked, ranges translated) over all histories.",
+ "C18": "the generate model writes exactly the up-to-date outputs and touches nothing else, for every tree, flag set and history.",
+ "C19": "helper contracts for every argument list.",
+ "C20": "the import insertion adds exactly one import at a valid place and leaves every other line alone, for every head layout.",
+}
+for _k, _v in PROVED.items():
+    CHECKS[_k]["text"] = CHECKS[_k]["text"] + " PROVED in Coq (all inputs): " + _v
